@@ -7,6 +7,8 @@ from vf.rec import Rec
 def make_sim(kind, **kw):
     if kind == 'T':
         from vf.simt import SimT
+        kw.pop('body_chunks', None)
+        kw.pop('async_handlers_coro', None)
         return SimT(**kw)
     from vf.sima import SimA
     kw.pop('policy', None)
@@ -47,3 +49,37 @@ def escaped(sim):
         return [(n, e) for n, e, tb in sim.sched.escaped
                 if not n.startswith('req-') and not n.startswith('app-')]
     return [('loop', e) for e in sim.loop.exceptions]
+
+
+def hang_signature(sim, ticket):
+    """Mechanism key of a ticket that did not complete: the stack of its task.
+    'close-wait-no-pending-reader' = blocked in Socket.close(wait=True) ->
+    queue.join() (known finding K1); anything else is named by its frames."""
+    frames = []
+    if sim.kind == 'T':
+        t = ticket.task
+        if t is not None and t.state != 'done':
+            frames = sim.sched.stack_of(t)
+            if t.timer is not None:
+                return 'not-hung'
+    else:
+        task = ticket.task
+        c = task.get_coro() if task is not None and not task.done() else None
+        while c is not None:
+            code = getattr(c, 'cr_code', None) or getattr(c, 'gi_code', None)
+            if code is None:
+                # e.g. a Future / queue.join() awaitable
+                frames.append(type(c).__name__)
+                break
+            fn = code.co_filename
+            short = fn[fn.rfind('/engineio/') + 1:] if '/engineio/' in fn \
+                else fn[fn.rfind('/') + 1:]
+            frames.append('%s:%s' % (short, code.co_name))
+            c = getattr(c, 'cr_await', None) or getattr(c, 'gi_yieldfrom',
+                                                        None)
+    names = [f.split(':')[-1] for f in frames]
+    eng = [f for f in frames if f.startswith('engineio/')]
+    if 'close' in names and 'join' in names and \
+            names.index('join') > names.index('close'):
+        return 'close-wait-no-pending-reader'
+    return 'hang:' + '>'.join(eng[-4:] or frames[-3:])
